@@ -1291,6 +1291,10 @@ class GateauxDerivativeRuleset(GenericDerivativeRuleset):
         self._w = coefficients.ufl_operands
         self._v = arguments.ufl_operands
         self._w2v = {w: v for w, v in zip(self._w, self._v)}
+        # The directions that add an argument to a differentiated BaseForm:
+        # derivative(F, u, du) with `du` a Coefficient is the action of the
+        # derivative and adds none.
+        self._v_args = tuple(v for v in self._v if isinstance(v, BaseArgument))
         # Build more convenient dict {f: df/dw} for each coefficient f
         # where df/dw is nonzero
         cd = coefficient_derivatives.ufl_operands
@@ -1629,7 +1633,7 @@ class GateauxDerivativeRuleset(GenericDerivativeRuleset):
         dc = self._process_coefficient(o)  # type: ignore
         if dc == 0:
             # Convert ufl.Zero into ZeroBaseForm
-            return ZeroBaseForm(o.arguments() + self._v)  # type: ignore
+            return ZeroBaseForm(o.arguments() + self._v_args)  # type: ignore
         return dc
 
     @process.register(Coargument)
@@ -1639,7 +1643,7 @@ class GateauxDerivativeRuleset(GenericDerivativeRuleset):
         dc = self._process_argument(o)
         if dc == 0:
             # Convert ufl.Zero into ZeroBaseForm
-            return ZeroBaseForm(o.arguments() + self._v)  # type: ignore
+            return ZeroBaseForm(o.arguments() + self._v_args)  # type: ignore
         return dc
 
     @process.register(Matrix)  # type: ignore
@@ -1648,14 +1652,14 @@ class GateauxDerivativeRuleset(GenericDerivativeRuleset):
         # Matrix rule: D_w[v](M) = v if M == w else 0
         # We can't differentiate wrt a matrix so always return zero in
         # the appropriate space
-        return ZeroBaseForm(M.arguments() + self._v)
+        return ZeroBaseForm(M.arguments() + self._v_args)
 
     @process.register(ZeroBaseForm)  # type: ignore
     def _(self, o: BaseForm) -> BaseForm:
         """Differentiate a zero_base_form."""
         # ZeroBaseForm is idempotent under differentiation: it stays zero,
         # gaining the new derivative direction as an extra argument.
-        return ZeroBaseForm(o.arguments() + self._v)
+        return ZeroBaseForm(o.arguments() + self._v_args)
 
 
 class BaseFormOperatorDerivativeRuleset(GateauxDerivativeRuleset):
